@@ -14,6 +14,18 @@ class UnownedRandomness(Exception):
 ONE_MINUS = 1.0 - 2.0 ** -53
 
 
+def nth_permutation(n, idx):
+    """the idx-th permutation of range(n) in the (lexicographic) order of itertools.permutations"""
+    pool = list(range(n))
+    out = []
+    f = math.factorial(n)
+    for k in range(n, 0, -1):
+        f //= k
+        q, idx = divmod(idx, f)
+        out.append(pool.pop(q))
+    return tuple(out)
+
+
 class ScriptedRandom(object):
     """every draw is a numbered choice point answered by a tree.Chooser.
 
@@ -74,7 +86,7 @@ class ScriptedRandom(object):
     def shuffle(self, x):
         n = len(x)
         idx = self.ch.choose(math.factorial(n), 'shuffle')
-        perm = list(next(itertools.islice(itertools.permutations(range(n)), idx, None)))
+        perm = list(nth_permutation(n, idx))
         vals = [x[i] for i in perm]
         for i, v in enumerate(vals):
             x[i] = v
@@ -221,7 +233,7 @@ class ScriptedMap(object):
             perms = None
         if perms is None:
             idx = self.ch.choose(math.factorial(n), self.label)
-            order = next(itertools.islice(itertools.permutations(range(n)), idx, None))
+            order = nth_permutation(n, idx)
         else:
             order = perms[self.ch.choose(len(perms), self.label)]
         self.calls += 1
